@@ -6,6 +6,7 @@ import sqlite3
 import subprocess
 import sys
 import tempfile
+import typing
 from typing import Any, Union
 
 from hypothesis import given, strategies as st
@@ -224,6 +225,62 @@ def do_trace_batch(ctx, fname, tmpdir):
         return ctx.fail("C08/traces-of-one-batch-not-all-returned", spec, f"{fname}: stored 9 traces differing only in return/yield, got back {got}")
 
 
+REIMPORT_SRC = """
+class Cfg:
+    class Inner:
+        pass
+
+    def method(self, a):
+        return a
+
+
+def handle(a, b=None):
+    return a
+"""
+
+
+def reimport_history(ctx, tmpdir, k):
+    """a stored row is decoded, the module it names is executed again (reload, or dropped from sys.modules and imported afresh),
+    and the SAME row is decoded again: names are resolved when a row is decoded, so it must come back as the function and the
+    classes the module has NOW"""
+    import importlib
+    import sys
+    from typing import Dict, List, Type
+    name = "c08re_%d_%d" % (os.getpid(), k)
+    sys.path.insert(0, tmpdir)
+    try:
+        with open(os.path.join(tmpdir, name + ".py"), "w") as f:
+            f.write(REIMPORT_SRC)
+        importlib.invalidate_caches()
+        mod = importlib.import_module(name)
+        rows = [CallTraceRow.from_trace(CallTrace(mod.handle, {"a": mod.Cfg, "b": List[mod.Cfg.Inner]}, Type[mod.Cfg], Dict[str, mod.Cfg.Inner])),
+                CallTraceRow.from_trace(CallTrace(mod.Cfg.method, {"self": mod.Cfg, "a": int}, mod.Cfg.Inner, None))]
+        for phase in ("first", "reload", "fresh-import", "reload"):
+            if phase == "reload":
+                mod = importlib.reload(mod)
+            elif phase == "fresh-import":
+                del sys.modules[name]
+                mod = importlib.import_module(name)
+            spec = ["REIMPORT", k, phase]
+            ctx.case(spec, True, ["reimport-history:" + phase])
+            try:
+                t1, t2 = rows[0].to_trace(), rows[1].to_trace()
+            except Exception as e:
+                return ctx.fail(f"C08/trace-round-trip-raises:{type(e).__name__}", spec, f"decoding after {phase}: {e!r}", raise_=False)
+            if t1.func is not mod.handle or t2.func is not mod.Cfg.method:
+                return ctx.fail("C08/trace-function-differs", spec, f"after {phase} the row decodes to a function object that is no longer the module's `handle` / `Cfg.method`", raise_=False)
+            got = [t1.arg_types["a"], typing.get_args(t1.arg_types["b"])[0], typing.get_args(t1.return_type)[0], typing.get_args(t1.yield_type)[1], t2.arg_types["self"], t2.return_type]
+            want = [mod.Cfg, mod.Cfg.Inner, mod.Cfg, mod.Cfg.Inner, mod.Cfg, mod.Cfg.Inner]
+            if any(g is not w for g, w in zip(got, want)):
+                return ctx.fail("C08/trace-arg-types-differ", spec, f"after {phase} the row decodes to class objects that are no longer the module's `Cfg` / `Cfg.Inner`", raise_=False)
+    finally:
+        sys.path.remove(tmpdir)
+        sys.modules.pop(name, None)
+
+
+MQ_DICT = ["dict", [[["lit", "module"], ["lit", 0]], [["lit", "qualname"], ["lit", "s"]]]]
+
+
 def shard(ctx):
     q = ctx.tier == "quick"
     import fx_basic
@@ -245,7 +302,7 @@ def shard(ctx):
             return test
 
         def f3(ctx):
-            @given(st.sampled_from(sorted(fx_basic.FUNCS)), st.lists(vals.values(2), min_size=1, max_size=4), st.sampled_from([0, 2, 5]),
+            @given(st.sampled_from(sorted(fx_basic.FUNCS)), st.lists(st.one_of(vals.values(2), vals.values(2), st.just(MQ_DICT), st.just(["list", [MQ_DICT]])), min_size=1, max_size=4), st.sampled_from([0, 2, 5]),
                    st.sampled_from(RY), st.sampled_from(RY))
             def test(fname, argspecs, k, r, y):
                 do_trace(ctx, fname, argspecs, k, r, y, tmpdir)
@@ -255,6 +312,9 @@ def shard(ctx):
         core.run_hypothesis(ctx, f2, 300 if q else 6000, salt=2)
         core.run_hypothesis(ctx, f3, 60 if q else 800, salt=3)
         # exhaustive: every fixture function x 9 return/yield combinations
+        if ctx.shard == 1 % ctx.nshards:
+            reimport_history(ctx, tmpdir, 0)
+            check_type(ctx, ["V", [MQ_DICT], 2, "merge"], tinfer.infer([vals.build(MQ_DICT), vals.build(["list", [MQ_DICT]])], 2), "inferred")
         if ctx.shard == 0:
             for fname in sorted(fx_basic.FUNCS):
                 try:
@@ -263,7 +323,7 @@ def shard(ctx):
                     ctx.record_violation(v.signature, v.spec, v.message)
                 for r in RY:
                     for y in RY:
-                        for last in (["dict", [[["lit", "a"], ["inst", "Outer.Inner"]]]], ["inst", "Registry"], ["cls", "Registry"], ["special", "func"]):
+                        for last in (["dict", [[["lit", "a"], ["inst", "Outer.Inner"]]]], ["inst", "Registry"], ["cls", "Registry"], ["special", "func"], MQ_DICT):
                             try:
                                 do_trace(ctx, fname, [["lit", 0], last], 2, r, y, tmpdir)
                             except core.Violation as v:
@@ -379,6 +439,12 @@ def run(ctx):
 
 
 def replay(ctx, case):
+    if case and case[0] == "REIMPORT":
+        d = tempfile.mkdtemp(prefix="c08-")
+        try:
+            return reimport_history(ctx, d, 99)
+        finally:
+            shutil.rmtree(d, ignore_errors=True)
     import random
     if case[0] == "V":
         do_values(ctx, case[1], case[2], random.Random(0), case[3])
